@@ -253,9 +253,9 @@ for kind, what in C02_KINDS:
 SEND_KINDS = ["send_call of Call<Empty> with 3 symbolic flags", "send_reply of Reply<()> with symbolic continues", "send_error of an empty error object"]
 # send_* = `enqueue; flush().await` (a 2-deep nest). In the small build (grow-and-retry loop in the formula) symbolic execution does
 # not finish in 20 min; in the 128/128 build (no growth) it does, like Chain::send in C06.
-for (L, P) in ((128, 0), (128, 20), (128, 110)):
+for (L, P) in ((128, 0),):   # from a non-empty buffer (pos=20) there was no verdict in 25 min / 10 GB
     for kind in range(3):
-        add("C02", "p02::send_%s_l%d_p%03d" % (["call", "reply", "error"][kind], L, P), Q if (P, kind) == (20, 1) else T, 1500, 12, est_gb=8, build="mid",
+        add("C02", "p02::send_%s_l%d_p%03d" % (["call", "reply", "error"][kind], L, P), T, 1500, 12, est_gb=8, build="mid",
             body="crate::p02::send_kind_at::<%d, %d, %d>" % (L, P, kind), unwind=130,
             inputs="write buffer len=%d, fill position=%d (concrete); %s" % (L, P, SEND_KINDS[kind]),
             bound="one send (enqueue + flush, a 2-deep coroutine nest) from the concrete state, 128/128 build", role="send_kind_at")
